@@ -40,7 +40,9 @@ Inductive vexpr :=
 (* --- clustering/base.py: _secondary_outputs (C05) --- *)
 | XNLabels (a : vexpr)                    (* max(labels) + 1                       -> count *)
 | XNLabels2 (a b : vexpr)                 (* max(max(a), max(b)) + 1               -> count *)
-| XMembershipN (labels n : vexpr).        (* get_membership(labels, n_labels=n) *)
+| XMembershipN (labels n : vexpr)         (* get_membership(labels, n_labels=n) *)
+(* --- linalg/ppr_solver.py: RandomSurferOperator (C04) --- *)
+| XAsBool (a : vexpr).                    (* v.astype(bool) used as a number: 1 where the entry is non-zero, else 0 *)
 
 Section Carrier.
   Context {T : Type}.
@@ -208,6 +210,11 @@ Section Carrier.
             Some (WM (List.length l) kk (fun i c => if Z.eqb (nth i l (-1)%Z) (Z.of_nat c) then t1 else t0))
         | _, _ => None
         end
+    | XAsBool a =>
+        match vdenote r a with
+        | Some (WV n f) => Some (WV n (fun i => if teqb (f i) t0 then t0 else t1))
+        | _ => None
+        end
     | XDiagonal a =>
         match vdenote r a with
         | Some (WM n k f) => Some (WV (Nat.min n k) (fun i => f i i))
@@ -265,3 +272,7 @@ Definition qenv_secondary_bip (B : list (list Q)) (n1 n2 : nat) (lr lc : list Z)
   ("input_matrix", wmat 0%Q B n1 n2) :: ("self.labels_row_", WLab lr) :: ("self.labels_col_", WLab lc) :: nil.
 Definition qmresult (v : option (vvalue Q)) : list (list Q) :=
   match v with Some (WM n k f) => map (fun i => map (fun j => Qred (f i j)) (seq 0 k)) (seq 0 n) | _ => [] end.
+
+(** environment of RandomSurferOperator: constructor arguments and the vector the operator is applied to *)
+Definition qenv_rso (A : list (list Q)) (n : nat) (seeds x : list Q) (damping : Q) : venv :=
+  ("adjacency", wmat 0%Q A n n) :: ("seeds", wvec 0%Q seeds) :: ("damping_factor", WS damping) :: ("x", wvec 0%Q x) :: nil.
